@@ -448,7 +448,17 @@ fn agent_case(rep: &mut Report, r: &mut Prng, idx: u64, seed: u64) {
                     rep.violation(&format!("agent-payload:{class}:name-changed"), &format!("server would read name {got:?}"), wit.clone());
                 }
                 match ps.and_then(|e| e.attr("junos:comment")) {
-                    Some(c) if c.contains("from mp-filter expression ") => {}
+                    Some(c) if c.contains("from mp-filter expression ") => {
+                        // the comment carries the expression: what the server reads is what the
+                        // agent meant to write (the expression in the rpsl crate's own rendering)
+                        let canon = expr.parse::<rpsl::expr::MpFilterExpr>().ok().map(|e| e.to_string());
+                        if let Some(canon) = canon {
+                            rep.count("agent_comments_compared_with_the_expression");
+                            if !c.contains(&canon) {
+                                rep.violation(&format!("agent-payload:comment-expression-changed"), &format!("server would read comment {c:?}, which does not contain the expression {canon:?}"), wit);
+                            }
+                        }
+                    }
                     other => rep.violation("agent-payload:comment-missing", &format!("{other:?}"), wit),
                 }
             }
